@@ -4,7 +4,10 @@ constructors, EncodeMessage length and sendMessage's length test)."""
 import vf
 
 SPEC = {
-    "uses_gen": False,
+    "uses_gen": ["MsgTruncate"],
+    "gen_header": "From Sky Require Import Gen.MsgTruncate.",
+    # group gen evaluates the regenerated unit on the cases of group msg
+    "case_of": lambda sj, g, i: (sj.get("cases", {}).get("msg" if g == "gen" else g, []) + [{"index": i}] * (i + 1))[i],
     "precompile_data": True,
     "cmd": "c23",
     "budget": (6, 300),
@@ -14,9 +17,11 @@ SPEC = {
     "groups": {
         "msg": ("mism_msg", "pf_msg"),
         "site": ("mism_site", "pf_site"),
+        "gen": ("mism_gen", None),
     },
     "trusted_base": [
-        "hand-written model Model/Truncate.v of NewGivePeers/GiveBlocks/GiveTxns/AnnounceTxns/GetTxnsMessage and the truncate* helpers, compared on this run with the implementation (items kept, len(EncodeMessage), verdict of gnet sendMessage's length test)",
+        "model Model/Truncate.v: its truncate_loop / truncate_hashes are PROVED equal (C23_*_is_translated, Proofs/TruncateRefine.v) to Gen/MsgTruncate.v, regenerated on this run by /verif/translator (stage3.go) from truncateGivePeers/GiveBlocks/GiveTxnsMessage, truncateAnnounceTxnsHashes / truncateGetTxnsHashes / truncateSHA256Slice, and the regenerated unit is compared on this run with the implementation (group gen); still hand-written and compared only: the item caps of the New*Message constructors (512/128/256), encoded_len / send_refused (gnet.EncodeMessage, sendMessage)",
+        "conventions of the regenerated unit (translator trusted for them; each visible at the top of Gen/MsgTruncate.v): m.EncodeSize() of a message = EncodeSize() of the empty message (parameter emptySize, 4) + the uint64 sum of the item sizes returned by encodeSizeIPAddr / encodeSizeSignedBlock / encodeSizeTransaction — the structure of the generated encodeSize*Message functions, checked on every case through the real encoded length (12 + sum of the kept sizes); a slice of hashes is represented by its length (capacity = length); a truncate function is summarised by the number of items it keeps; logger.Panic is Panic",
         "item sizes are data taken from the generated encodeSize functions (codecs are the subject of C21); the wire header 4+4 bytes is checked through the real EncodeMessage length on every case",
         "call sites: the real process methods of GetBlocks/GetTxns/AnnounceTxns/GiveTxnsMessage run on a recording daemoner, and Daemon.BroadcastTransaction / broadcastBlock / sendRandomPeers / announceTxnHashes run on a real Daemon (real pex, connections, gnet pool offline) with MaxIncomingMessageLength != MaxOutgoingMessageLength; what reaches sendMessage / broadcastMessage / the connections' write queues is measured against MaxOutgoingMessageLength",
         "harness printer of inputs/outputs as Coq terms",
